@@ -107,6 +107,11 @@ func checkC10(c *Ctx) {
 			muts = append(muts, mut{fn, in, "Message." + f.Name()})
 		})
 	}
+	for _, u := range pm.unknown {
+		if u.store == "file" {
+			r.Undecided("C10/PERSIST", siteName(u), p.InstrPos(u.in), "unclassified writer of file.mbox.messages: the rule cannot tell whether this mutation is persisted before every return (error returns included) — a mailbox list changed in memory without a matching index write is lost or contradicts the disk after a restart")
+		}
+	}
 	r.Floor("C10/PERSIST", "mutation sites", len(muts), 5)
 	ord := map[string]int{}
 	for _, mu := range muts {
